@@ -46,8 +46,8 @@ C04_THEOREMS = [
     "Ffcx.Layout.expr_descriptor",
     "Ffcx.Layout.entityType_error",
     "Ffcx.Layout.exprDesc_two_arguments",
-    "Ffcx.Layout.expr_num_constants_partial",
-    "Ffcx.Layout.expr_num_constants_counterexample",
+    "Ffcx.Layout.expr_num_constants",
+    "Ffcx.Layout.expr_num_constants_witness",
 ]
 TENSOR_SIZES_THEOREMS = ["Ffcx.Layout.tensorW_covers_partial", "Ffcx.Layout.tensorW_interior_counterexample"]
 
